@@ -88,8 +88,13 @@ class C12(Prop):
 
     def run_impl(self, case):
         sys = C04.sysnp(case)
+        # the same problem in other capture units (exact power-of-two rescaling of sources, baseline and targets; undone on the result);
+        # chosen per case from its own data so that the generator's random stream is unchanged
+        u = self.unit(case)
+        if u != 1.0:
+            sys = dict(sys, A=sys["A"] * u, baseline=(np.asarray(sys["baseline"], dtype=float) * u if np.ndim(sys["baseline"]) else sys["baseline"] * u))
         est = gs.make_estimator(sys)
-        B = np.array(case["B"], dtype=float)
+        B = np.array(case["B"], dtype=float) * u
         Bin = B.copy()
         if case["op"] == "l1":
             r = est.gamut_l1_scaling(B, relative=case["relative"])
@@ -98,7 +103,12 @@ class C12(Prop):
             if case["neutral"] is not None:
                 kw["neutral_point"] = np.array(case["neutral"])
             r = est.gamut_dist_scaling(B, relative=case["relative"], **kw)
-        return {"out": np.asarray(r, dtype=float).tolist(), "input_untouched": bool(np.array_equal(B, Bin))}
+        return {"out": (np.asarray(r, dtype=float) / u).tolist(), "input_untouched": bool(np.array_equal(B, Bin)), "unit": u}
+
+    @staticmethod
+    def unit(case):
+        h = int(round(abs(float(np.sum(np.array(case["B"], dtype=float))) * 64))) % 10
+        return {0: 2.0 ** -30, 1: 2.0 ** -40, 2: 2.0 ** 20}.get(h, 1.0)
 
     def transformed(self, case):
         sys = C04.sysnp(case)
